@@ -80,6 +80,7 @@ Fixpoint spec_ok (scap : Z) (srcm mem0 : memory) (base cap : Z) (c : call) (r : 
   | FGetBytes sz fb off => sp_reads mem0 base cap r d0 (wrap32 (fb + off)) sz
   | FPut sz fb off => sp_writes base cap d0 (wrap32 (fb + off)) sz
   | FOverlay sz fb off => sp_exposes base cap r d0 (wrap32 (fb + off)) sz
+  | FField sz fb foff flen => inside cap fb sz && sp_reads mem0 base cap r d0 (fb + foff) flen
   end.
 
 Definition holds_call (rcap scap p w : Z) (c : call) (o : obs) : bool :=
